@@ -56,6 +56,9 @@ def sym_entries(eng, cfg, coord_max=2 ** 63, rowid_max=2 ** 32):
     eng.assume(common >= 0, common < I(coord_max))
     rows = []
     for i in range(ne):
+        if cfg.get("concrete_rows"):
+            rows.append([I(j) for j in range(lens[i])])      # long arrays: row ids concrete, only the structure matters
+            continue
         rs = [z3.BitVec("r_%d_%d" % (i, j), W) for j in range(lens[i])]
         for j, r in enumerate(rs):
             eng.assume(r >= 0, r < I(rowid_max))
